@@ -671,7 +671,24 @@ func (w *World) advVote(b int, h, v uint64, tag string) bool {
 		}
 	case "byz.vote-proof-no-block":
 		caps := w.capturedProofs(h)
-		if len(caps) == 0 {
+		// the adversary controls the network: it knows which proposals never reached the leader it writes to, and
+		// prefers a certificate of such a view (the receiver cannot complete or cross-check the vote from its own log)
+		var unseen []*SentRec
+		for _, c := range caps {
+			if c.msg.Vote.Proof.PP.V < nv && !w.proposalDelivered(ld, h, c.msg.Vote.Proof.PP.V) {
+				unseen = append(unseen, c)
+			}
+		}
+		if len(unseen) > 0 {
+			caps = unseen
+			w.probe("byz-vote-proof-of-view-unseen-by-receiver")
+		} else if p, _, ok := w.forgeProofKind(b, h, nv, 0); ok && !w.proposalDelivered(ld, h, p.PP.V) {
+			pr = p
+			w.probe("byz-vote-proof-of-view-unseen-by-receiver")
+		}
+		if pr.Present {
+			// assembled above
+		} else if len(caps) == 0 {
 			p, _, ok := w.forgeProof(b, h, nv)
 			if !ok {
 				return false
@@ -700,6 +717,23 @@ func (w *World) advVote(b int, h, v uint64, tag string) bool {
 	}
 	raw := VoteMsg(SignedVote(sg, w.instance, h, nv, pr), blk)
 	return w.inject(b, raw, tag, []int{ld}) > 0
+}
+
+// proposalDelivered: has a proposal (PREPREPARE or NEW_VIEW) for (h, v) been delivered to node idx?
+func (w *World) proposalDelivered(idx int, h, v uint64) bool {
+	if idx < 0 || idx >= len(w.nodes) {
+		return true
+	}
+	for _, d := range w.nodes[idx].obs.delivered {
+		m := d.msg
+		if m == nil {
+			continue
+		}
+		if (m.Kind == KPP && m.Ref.H == h && m.Ref.V == v) || (m.Kind == KNV && m.NVH == h && m.NVV == v) {
+			return true
+		}
+	}
+	return false
 }
 
 // votes for (h, v) that honest nodes addressed to anybody (the Byzantine leader reads all traffic)
@@ -1067,8 +1101,11 @@ func (w *World) mutateMsg(b int, s *SentRec) *interfaces.ConsensusRawMessage {
 		return nil
 	}
 	sg := w.signer(b)
-	field := w.ch.Pick("mut-field", 8)
+	field := w.ch.Pick("mut-field", 10)
 	resign := w.ch.Pick("mut-resign", 3) == 2
+	if m.Kind != KNV {
+		field %= 8
+	}
 	switch m.Kind {
 	case KPP, KP, KC:
 		r := m.Ref
@@ -1194,9 +1231,26 @@ func (w *World) mutateMsg(b int, s *SentRec) *interfaces.ConsensusRawMessage {
 			} else {
 				blk = nil
 			}
+		case 8:
+			// the part of a NEW_VIEW its header signature does not cover: the embedded proposal is swapped for another
+			// block with a matching hash; the proposal's own signature (kept) is then not valid
+			nb := w.freshBlock(m.NVH, b, false)
+			blk, ppHash = nb, nb.Hash()
+			w.use("byz.nv-embedded-proposal-swapped")
 		}
 		ppHdr := refBuilder(protocol.LEAN_HELIX_PREPREPARE, m.Ref.Instance, m.Ref.H, ppV, ppHash)
 		ppSig := m.PPSender
+		if field == 9 {
+			// only the signature of the embedded proposal is damaged; everything else is genuine
+			sig := cp(ppSig.Sig)
+			if len(sig) > 0 {
+				sig[len(sig)-1] ^= 1
+			} else {
+				sig = []byte{1}
+			}
+			ppSig = Sig{ppSig.Id, sig}
+			w.use("byz.nv-embedded-proposal-signature-damaged")
+		}
 		hdr := &protocol.NewViewHeaderBuilder{MessageType: protocol.LEAN_HELIX_NEW_VIEW, InstanceId: primitives.InstanceId(m.NVInstance), BlockHeight: primitives.BlockHeight(hh), View: primitives.View(vv), ViewChangeConfirmations: votes}
 		sender := m.Sender
 		if resign {
